@@ -1049,7 +1049,7 @@ func TestVerifC03Gen(t *testing.T) {
 	seed := VSeed()
 	nScen, steps, nParse := 400, 50, 4000
 	if VThorough() {
-		nScen, steps, nParse = 3000, 70, 40000
+		nScen, steps, nParse = 5000, 80, 80000
 	}
 	nScen = VEnvInt("VERIF_C03_SCEN", nScen)
 
